@@ -111,6 +111,14 @@ def VE.eval (env : List (String × Val)) : VE → Except Err Val
     | none => .error (.other "unbound value parameter")
   | .lit q => .ok (.num q)
 
+/-- `periodic_function(<param>)` inside a constructor: anything that is not the wavetype string
+of a known class raises `UnknownWavetype` (a number never equals a wavetype string) -/
+def waveCheck (env : List (String × Val)) (pw : String × List String) : Except Err Unit :=
+  match env.lookup pw.1 with
+  | some (.str s) => if pw.2.contains s then .ok () else .error (.other "UnknownWavetype")
+  | some _ => .error (.other "UnknownWavetype")
+  | none => .error (.other "unbound wavetype parameter")
+
 /-- one constructor call -/
 def CtorSpec.construct (s : CtorSpec) (id : Option String) (nodes : Option (List String))
     (args : List (String × Val)) : Except Err Component := do
@@ -124,6 +132,7 @@ def CtorSpec.construct (s : CtorSpec) (id : Option String) (nodes : Option (List
     | none, none => throw .typeError
   let env ← bindParams s.params args
   s.guards.forM (·.check env)
+  s.waveChecks.forM (waveCheck env)
   let value ← s.values.mapM fun kv => do pure (kv.1, ← kv.2.eval env)
   pure { kind := s.kind, id := id, nodes := nodes, value := value }
 
@@ -230,10 +239,11 @@ def TSpec.runSimple (s : TSpec) (trig : Trig) (c : Component) (w wres : Rat) :
 def periodicFunction (waves : List String) (name : String) : Except Err String :=
   if waves.contains name then .ok name else .error (.other "UnknownWavetype")
 
-def HArg.eval (w amp ph : Rat) : HArg → Val
-  | .w => .num w
-  | .harmAmp => .num amp
-  | .harmPhase => .num ph
+def HArg.eval (c : Component) (w amp ph : Rat) : HArg → Except Err Val
+  | .w => .ok (.num w)
+  | .harmAmp => .ok (.num amp)
+  | .harmPhase => .ok (.num ph)
+  | .key k => do pure (.num (← c.float k))
 
 def Tables.ctorE (T : Tables) (fn : String) : Except Err CtorSpec :=
   match T.ctor? fn with
@@ -258,7 +268,8 @@ def periodicActive (T : Tables) (s : TSpec) (trig : Trig) (c : Component) (w wre
   let cs ← T.ctorE ctor
   let n1 ← c.node s.n1
   let n2 ← c.node s.n2
-  let single ← cs.construct (some c.id) (some [n1, n2]) (ctorArgs.map fun a => (a.1, a.2.eval w amp ph))
+  let args ← ctorArgs.mapM fun a => do pure (a.1, ← a.2.eval c w amp ph)
+  let single ← cs.construct (some c.id) (some [n1, n2]) args
   let si ← T.tspecE inner
   si.runSimple trig single w wres
 
